@@ -12,7 +12,7 @@ EXPLANATION = ('Each propagator is run once on a fully symbolic complex input; i
                'B A = I, composition is A(z1) A(z2) = A(z1+z2): all are identities between sums of roots of unity and symbolic '
                'phasors (wavelength, sample spacing and distances are symbols), decided exactly.')
 BOUNDS = {'quick': 'focus/unfocus: shapes [1..4]^2 x Q in {1,2,3} (padded size <= 36 samples); mdft/czt band-complete pairs (m,n)->(M,N) with m,n in 1..3, M in {m,m+1,2m}; angular spectrum shapes [1..3]^2, Q in {1,2}; thorough adds angular-spectrum arrays of length 13 (a non-fast FFT length), distances up to +-3e5 mm',
-          'thorough': 'focus/unfocus shapes [1..6]^2 (padded size <= 42); mdft/czt m,n in 1..4 (kernel size <= 144); angular spectrum up to 20 samples plus 1x13'}
+          'thorough': 'the quick set plus 5xN shapes (padded size <= 36), band kernels up to 100 entries, an angular-spectrum array of length 13 (not a fast FFT length), two more non-square fixed-sampling band round trips (larger sets did not finish in 70 minutes on 16 cores)'}
 OUTSIDE = 'float rounding; the tf= pass-through argument of angular_spectrum; shapes beyond the bound'
 NDERIVED = 16
 MAX_PATHS = 8
@@ -22,20 +22,20 @@ CFG_TIMEOUT = {'quick': 900, 'thorough': 3600}
 def configs(tier):
     q = tier == 'quick'
     out = []
-    hi = 4 if q else 6
-    cap = 36 if q else 42        # thorough sized for about half an hour on 16 cores (exact products of (m n) x (M N) kernels)
+    hi = 4 if q else 5
+    cap = 36 if q else 36        # thorough sized for about half an hour on 16 cores (exact products of (m n) x (M N) kernels)
     for m in range(1, hi + 1):
         for n in range(1, hi + 1):
             for Q in (1, 2, 3):
                 if m * Q * n * Q > cap:
                     continue
                 out.append({'name': 'fft-%dx%d-Q%d' % (m, n, Q), 'kind': 'fft', 'in': [m, n], 'Q': Q})
-    hi2 = 3 if q else 4
+    hi2 = 3
     for eng in ('mdft', 'czt'):
         for m in range(1, hi2 + 1):
             for n in range(1, hi2 + 1):
                 for (M, N) in {(m, n), (m + 1, n), (m, n + 1), (2 * m, 2 * n), (m + 1, 2 * n)}:
-                    if m * n * M * N > (81 if q else 144):
+                    if m * n * M * N > (81 if q else 100):
                         continue
                     out.append({'name': 'band-%s-%dx%d-%dx%d' % (eng, m, n, M, N), 'kind': 'band', 'engine': eng,
                                 'in': [m, n], 'out': [M, N]})
@@ -43,7 +43,7 @@ def configs(tier):
     for m in range(1, hi3 + 1):
         for n in range(1, hi3 + 1):
             for Q in (1, 2):
-                if m * Q * n * Q > (16 if q else 20):
+                if m * Q * n * Q > (16 if q else 16):
                     continue
                 out.append({'name': 'as-%dx%d-Q%d' % (m, n, Q), 'kind': 'as', 'in': [m, n], 'Q': Q})
     # lengths that are not "fast" FFT lengths (a prime factor above 11): an implementation that transforms at a padded fast length and crops
